@@ -13,7 +13,7 @@ func genC06(tier string, rng *RNG, w *CaseWriter) {
 	w.ShardSize = 200
 	oFaults := []ocspBehav{{Kind: "transport"}, {Kind: "timeout"}, {Kind: "http404"}, {Kind: "http500"}, {Kind: "http302"}, {Kind: "http500-good-body"}, {Kind: "http201-good-body"}, {Kind: "empty"},
 		{Kind: "truncated"}, {Kind: "oversized"}, {Kind: "garbage"}, {Kind: "readerr"}, {Kind: "canned-unauthorized"}, {Kind: "canned-malformed"},
-		{Kind: "canned-internal"}, {Kind: "canned-trylater"}, {Kind: "canned-sigrequired"}, {Kind: "badurl"}, {Kind: "scheme"}, oStale, oForged,
+		{Kind: "canned-internal"}, {Kind: "canned-trylater"}, {Kind: "canned-sigrequired"}, {Kind: "badurl"}, {Kind: "scheme"}, {Kind: "emptyurl"}, {Kind: "blankurl"}, oStale, oForged,
 		respB("issuer", 0, "absent", "none")}
 	oGenuine := []ocspBehav{oGood, oRevoked, oUnknown}
 	cFaultKinds := []string{"503", "404", "302", "empty", "garbage", "truncated", "transport", "timeout", "readerr", "delta-nonhttp", "delta-unreachable", "delta-ext-malformed", "500-valid-crl", "404-valid-crl", "201-valid-crl"}
@@ -185,7 +185,7 @@ func genC06(tier string, rng *RNG, w *CaseWriter) {
 				}
 			}
 			for idx := range o.O { // URL strings are baked into the certificate: preserve badurl/scheme slots
-				if o.O[idx].Kind == "badurl" || o.O[idx].Kind == "scheme" {
+				if k := o.O[idx].Kind; k == "badurl" || k == "scheme" || k == "emptyurl" || k == "blankurl" {
 					q.O[idx] = o.O[idx]
 				}
 			}
